@@ -17,6 +17,8 @@ RULE = (
     "form in an expression slot and >= 1 of {keyword-named identifier, lambda, walrus, negative constant, non-ASCII name}; distinct by source. "
     "Second leg: the programs of the other properties' generators - match forms with subjects (C08), scoping programs with let/"
     "nonlocal/global/classes/comprehensions (C06/C07), defn signatures with calls (C05), operator forms over the C03 value pool - "
+    "operator / attribute / subscript / display forms over literal operands incl. negative and complex numbers, scoping programs "
+    "whose pool names are renamed to Python keywords (global/nonlocal lists, class-pattern attributes) - "
     "compiled once, executed from the AST and from the printed text in the same environment; observation (result, log, module "
     "variables) and exception type must agree"
 )
@@ -115,6 +117,14 @@ def names_ok(prog, names):
             and all(isinstance(v, str) and v in EXOTIC and v not in ns and v not in RESERVED for v in vals))
 
 
+LIT_POOL = ["0", "1", "2", "-1", "-3", "-2.5", "0.5", "-0.0", "-1j", "2j", "1+2j", "-1-2j", "1e3", "-1e-3", "True", "None", '"a"', "[-1 2]", "-5", "7"]
+LIT_FORMS = {
+    "(** %s %s)": 2, "(** %s %s %s)": 3, "(- %s)": 1, "(- (- %s))": 1, "(+ %s %s)": 2, "(* %s %s)": 2, "(/ %s %s)": 2, "(// %s %s)": 2, "(% %s %s)": 2,
+    "(. %s real)": 1, "(. %s imag)": 1, "(.conjugate %s)": 1, "(.bit-length %s)": 1, "(.is-integer %s)": 1, "(get [1 2 3] %s)": 1, "(get %s 0)": 1,
+    "(cut [1 2 3] %s %s)": 2, "(< %s %s %s)": 3, "(bnot %s)": 1, "(not %s)": 1, "(abs %s)": 1, "(if %s %s %s)": 3, "(@ %s %s)": 2, "(<< %s %s)": 2,
+    "(lfor x [%s %s] (** x 2))": 2, "(.format \"{}\" %s)": 1, "f\"{%s !r :>8}\"": 1, "{%s %s}": 2, "#{%s %s}": 2,
+}
+
 # ---------------------------------------------------------------- programs of the other generators (C03 C05 C06 C07 C08)
 def foreign_source(case):
     """-> (hy source, namespace factory(log) -> dict, observe(ns) -> text) for a case of another property's generator"""
@@ -141,6 +151,16 @@ def foreign_source(case):
         if S.comp_conflict(c) or S.reference(c)[0] != "ok":
             return None
         src = S.render(c)
+        ren = case.get("rename") or {}
+        if ren:
+            # the four pool names become Python keywords / exotic names everywhere they occur (they occur only as names)
+            if sorted(ren) != sorted(S.POOL + [S.GHOST])[: len(ren)] and not set(ren) <= set(S.POOL + [S.GHOST]):
+                return None
+            if len(set(ren.values())) != len(ren) or not all(v in EXOTIC for v in ren.values()):
+                return None
+            import re
+
+            src = re.sub(r"(?<![\w-])(%s)(?![\w-])" % "|".join(sorted(ren)), lambda m: ren[m.group(1)], src)
 
         def env(log):
             def REC(i, v):
@@ -149,7 +169,10 @@ def foreign_source(case):
 
             return dict(REC=REC)
 
-        return src, env, lambda ns: repr({n: ns.get(n, "<absent>") for n in S.POOL + [S.GHOST]})
+        import hy
+
+        names = [hy.mangle(ren.get(n, n)) for n in S.POOL + [S.GHOST]]
+        return src, env, lambda ns: repr({n: ns.get(n, "<absent>") for n in names})
     if kind == "c05":
         from vf.props import c05
 
@@ -158,6 +181,14 @@ def foreign_source(case):
             lines.append('(setv R%d (try (repr (sorted (.items %s))) (except [TypeError] "TypeError")))' % (i, c05.hy_call(call)))
         n = len(c["calls"])
         return "\n".join(lines), (lambda log: {}), (lambda ns: repr([ns.get("R%d" % i) for i in range(n)]))
+    if kind == "literals":
+        # operator / attribute / subscript forms over *literal* operands (negative and complex numbers print differently from names)
+        form = c["form"]
+        lits = c["lits"]
+        if form not in LIT_FORMS or len(lits) != LIT_FORMS[form] or not all(x in LIT_POOL for x in lits):
+            return None
+        src = "(setv OUT (try %s (except [e Exception] (+ \"raise:\" (. (type e) __name__)))))" % (form % tuple(lits))
+        return src, (lambda log: {}), (lambda ns: "%s:%r" % (type(ns.get("OUT")).__name__, ns.get("OUT")))
     if kind == "c03":
         from vf.props import c03
 
@@ -183,6 +214,9 @@ def check_foreign(case):
     src, env, observe = fs
     kind = case["foreign"]
     mod = types.ModuleType("vfprog14f")
+    import warnings
+
+    warnings.simplefilter("ignore", SyntaxWarning)  # e.g. `-3[0]` in deliberately odd literal forms
     try:
         tree = hy.compiler.hy_compile(hy.read_many(src), mod, filename="<c14>", source=src)
         code_ast = compile(tree, "<ast>", "exec")
@@ -347,6 +381,10 @@ def shard(ctx):
         S.program_strategy("decl").map(lambda c: dict(foreign="scopes", case=c)),
         c05.strategies()[0].map(lambda c: dict(foreign="c05", case=c)),
         c03_case.map(lambda c: dict(foreign="c03", case=c)),
+        st.sampled_from(sorted(LIT_FORMS)).flatmap(lambda f: st.lists(st.sampled_from(LIT_POOL), min_size=LIT_FORMS[f], max_size=LIT_FORMS[f]).map(
+            lambda ls: dict(foreign="literals", case=dict(form=f, lits=ls)))),
+        st.tuples(S.program_strategy("decl"), st.lists(st.sampled_from(EXOTIC), min_size=4, max_size=4, unique=True)).map(
+            lambda t: dict(foreign="scopes", case=t[0], rename=dict(zip(S.POOL + [S.GHOST], t[1])))),
     )
 
     def one_foreign(case):
